@@ -229,8 +229,8 @@ def w_errors(ctx, rng, i):
         ctx.raises("fbg.errors", ValueError, D.FBG, x, landa_D=lam, dneff=1e-4, print_params=False)
         ctx.raises("fbg.errors", ValueError, D.FBG, x, landa_D=lam, kL=2.0, print_params=False)
         ctx.raises("fbg.errors", ValueError, D.FBG, x, kL=2.0, L=1e-2, vdneff=1e-4, print_params=False)
-        ctx.raises("fbg.errors", TypeError, D.FBG, T.electrical_signal(np.ones(256)), fc=fc, vdneff=1e-4, kL=2.0, print_params=False)
-        ctx.raises("fbg.errors", ValueError, D.FBG, x, fc=fc, vdneff=1e-4, kL=2.0, apodization=3.5, print_params=False)
+        ctx.probe("fbg.electrical_input", D.FBG, T.electrical_signal(np.ones(256)), fc=fc, vdneff=1e-4, kL=2.0, print_params=False)        # (probe: the statement names incomplete specifications only)
+        ctx.probe("fbg.numeric_apodization", D.FBG, x, fc=fc, vdneff=1e-4, kL=2.0, apodization=3.5, print_params=False)
     ctx.case(("err", i))
 
 
